@@ -77,6 +77,7 @@ func (t *translator) load(pattern string) *packages.Package {
 		Mode: packages.NeedName | packages.NeedFiles | packages.NeedSyntax | packages.NeedTypes |
 			packages.NeedTypesInfo | packages.NeedImports | packages.NeedDeps,
 		BuildFlags: []string{"-tags=verif"},
+		Overlay:    extraOverlay(),
 	}
 	ps, err := packages.Load(cfg, pattern)
 	if err != nil {
@@ -90,6 +91,30 @@ func (t *translator) load(pattern string) *packages.Package {
 	}
 	t.pkgs[pattern] = ps[0]
 	return ps[0]
+}
+
+// extraOverlay honours VERIF_EXTRA_OVERLAY (same JSON as `go build -overlay`): lets a check run
+// against an edited copy of some source files without touching /repo.
+func extraOverlay() map[string][]byte {
+	p := os.Getenv("VERIF_EXTRA_OVERLAY")
+	if p == "" {
+		return nil
+	}
+	b, err := os.ReadFile(p)
+	if err != nil {
+		return nil
+	}
+	var ov struct{ Replace map[string]string }
+	if json.Unmarshal(b, &ov) != nil {
+		return nil
+	}
+	m := map[string][]byte{}
+	for k, v := range ov.Replace {
+		if c, err := os.ReadFile(v); err == nil {
+			m[k] = c
+		}
+	}
+	return m
 }
 
 func fileSHA(path string) string {
